@@ -394,7 +394,7 @@ def candidates(case):
 
 
 FINDING_ABLATIONS = {
-    "F2b": (H.pre_generic_driver, H.abl_generic_driver),
+    "F2b": (H.pre_generic_driver, H.abl_generic_driver, H.sole_generic_driver),
     "F20": (H.pre_userfn, H.ablate_userfns),
     "F28": (H.pre_masked_unoptimized, H.abl_unmask),
     "F22": (H.pre_nested_window, H.abl_nested_window),
